@@ -170,7 +170,7 @@ func (s *Session) logsHook(point string) bool {
 	case "all":
 		return true
 	}
-	return !strings.HasPrefix(point, "snd.") && !strings.HasPrefix(point, "upd.")
+	return !strings.HasPrefix(point, "snd.") && !strings.HasPrefix(point, "upd.") && !strings.HasSuffix(point, ".tx.lock")
 }
 
 func (s *Session) eventHook(point string, id, a, b int64) {
